@@ -278,6 +278,8 @@ func (i *interpreter) callVX(fr *frame, fn *ssa.Function, args []value) value {
 			out[k] = append([]value{}, r...)
 		}
 		return out
+	case "LastRegexp":
+		return i.ps.lastRegexp
 	case "ConstrainHash":
 		i.ps.hashBits = int(i.concInt(args[0]))
 		i.ps.hashAllowed = nil
